@@ -182,12 +182,25 @@ def sc3(F, R):
         R.bad("SC3", "SC3/Script::deploy_to/shape", b.where(), "cannot establish SC3: no loop over the command list containing the graph calls found")
         return
     src, it, nxt, _ = cl
-    if [a for a, _ in iter_adaptors(it) if a not in ("enumerate", "inspect", "peekable")]:
+    ads_all = iter_adaptors(it)
+    after_collect = []
+    collected = None
+    for an, ex in ads_all:
+        if an == "collect":
+            collected = strip_load(ex[0])
+            after_collect = []
+        else:
+            after_collect.append(an)
+    walk_ads = after_collect if collected is not None else [a for a, _ in ads_all]
+    if [a for a in walk_ads if a not in ("enumerate", "inspect", "peekable")]:
         R.bad("SC3", "SC3/Script::deploy_to/commands-not-in-order", nxt.where(),
-              "the commands are not deployed one by one in the order of the list (adaptors %s)" % [a for a, _ in iter_adaptors(it)])
+              "the commands are not deployed one by one in the order of the list (adaptors %s)" % walk_ads)
     # where does the list come from?
     why = None
-    if src[0] == "call" and src[1].split("::")[-1] in ("collect", "collect_vec", "from_iter"):
+    if collected is not None:
+        why = split_chain_ok(F, collected[2][-1], b)
+        src = collected
+    elif src[0] == "call" and src[1].split("::")[-1] in ("collect", "collect_vec", "from_iter"):
         why = split_chain_ok(F, src[2][-1], b)
     else:
         # a vector filled by pushes in a loop over the split pieces
